@@ -482,7 +482,7 @@ func Run(raw json.RawMessage) (any, error) {
 		return nil, err
 	}
 	o.Merge = sA.Exec("call dolt_merge('b1')")
-	o.SchConf = sA.Exec("select count(*) from dolt_schema_conflicts")
+	o.SchConf = sA.Exec("select table_name, description from dolt_schema_conflicts")
 	if o.Merged, err = finalTables(sA); err != nil {
 		return nil, err
 	}
@@ -529,4 +529,37 @@ func Run(raw json.RawMessage) (any, error) {
 		}
 	}
 	return o, nil
+}
+
+// ---- c37find: search a column name whose first tag candidate is a given tag (used once to build the
+// witness of the duplicate-tag finding; the result is pinned in props/c37.py) ----
+
+func init() { hk.Register("c37find", Find) }
+
+type FindCase struct {
+	Table  string `json:"table"`
+	Kinds  []int  `json:"kinds"`
+	Kind   int    `json:"kind"`
+	Target uint64 `json:"target"`
+	Prefix string `json:"prefix"`
+	Max    int    `json:"max"`
+}
+
+func Find(raw json.RawMessage) (any, error) {
+	var c FindCase
+	if err := json.Unmarshal(raw, &c); err != nil {
+		return nil, err
+	}
+	var ks []types.NomsKind
+	for _, k := range c.Kinds {
+		ks = append(ks, types.NomsKind(k))
+	}
+	found := []string{}
+	for i := 0; i < c.Max && len(found) < 3; i++ {
+		n := fmt.Sprintf("%s%d", c.Prefix, i)
+		if schema.AutoGenerateTag(schema.TagMapping{}, c.Table, ks, n, types.NomsKind(c.Kind)) == c.Target {
+			found = append(found, n)
+		}
+	}
+	return map[string]any{"names": found}, nil
 }
